@@ -137,7 +137,34 @@ def handmade(nprng, rng, N, n, kind, dtype):
     cond = 10 ** rng.uniform(0, 3.0 if dtype == numpy.float64 else 1.45)
     scale = 10 ** rng.uniform(-3, 3) if rng.random() < 0.5 else 1.0
     Q = rand_orth(nprng, q)
-    if kind == "full":
+    if kind == "illcond":
+        # round 5: full rank, zero conditioning, cond(C_offoff) 1e3..1e6 (float64 only; the tolerance is scaled by cond/1e3): the
+        # smallest singular values are far above rounding but below any "sensible default" cut-off a falsy svd_conditioning=0 may turn into
+        cond = 10 ** rng.uniform(3.0, 6.0)
+        mu = numpy.array([cond ** (-rng.random()) for _ in range(q)])
+        mu[rng.randrange(q)] = 1.0
+        if q > 1:
+            mu[rng.choice([i for i in range(q) if mu[i] != 1.0])] = 1.0 / cond
+        rcond = 0.0
+    elif kind == "tightgap":
+        # round 5: the cut-off rcond*max sits only a factor 10 above the discarded and a factor 10 below the retained singular
+        # values ("gap" leaves five decades on either side, so rcond used as sqrt(rcond), rcond^2, 10*rcond ... passes there);
+        # retained cond <= 1e3 (float64) / 30 (float32) as for "full"
+        rcond = 10 ** (rng.uniform(-4.0, -1.1) if dtype == numpy.float64 else rng.uniform(-2.48, -1.1))
+        nsmall = rng.randint(1, q - 1)
+        small = set(rng.sample(range(q), nsmall))
+        large = [i for i in range(q) if i not in small]
+        mu = numpy.zeros(q)
+        for i in large:
+            mu[i] = 10 ** rng.uniform(numpy.log10(10 * rcond), 0.0)
+        mu[large[0]] = 1.0
+        if len(large) > 1:
+            mu[large[1]] = 10 * rcond * rng.uniform(1.0, 1.5)
+        for i in small:
+            mu[i] = rcond * 10 ** rng.uniform(-2.0, -1.0)
+        mu[next(iter(small))] = rcond / 10 * rng.uniform(0.67, 1.0)
+        cond = 1.0 / mu[large].min()
+    elif kind == "full":
         mu = numpy.array([cond ** (-rng.random()) for _ in range(q)])
         mu[rng.randrange(q)] = 1.0
         rcond = 0.0
@@ -164,7 +191,79 @@ def handmade(nprng, rng, N, n, kind, dtype):
     C = (C + C.T) / 2
     Cd = C.astype(dtype)
     Cd = ((Cd + Cd.T) / 2).astype(dtype)        # stays symmetric after rounding
+    LAST["cond"] = float(cond)
     return Cd, W, rcond, scale
+
+
+LAST = {}          # cond(C_offoff) on the retained subspace of the matrix handmade() made last
+
+
+# --------------------------------------------------------------------------- round 5: the same arguments in other forms
+LAYOUTS = ("C", "C", "F", "strided", "neg", "ro", "window")
+
+
+def relayout(C, how):
+    """the same matrix (values, dtype) in another memory layout"""
+    N = C.shape[0]
+    if how == "F":
+        return numpy.asfortranarray(C)
+    if how == "strided":                   # every second element of a NaN-filled buffer
+        big = numpy.full((2 * N + 1, 2 * N + 1), numpy.nan, dtype=C.dtype)
+        v = big[1::2, 1::2]
+        v[...] = C
+        return v
+    if how == "neg":                       # negative strides on both axes
+        return C[::-1, ::-1].copy()[::-1, ::-1]
+    if how == "ro":
+        C = C.copy()
+        C.setflags(write=False)
+        return C
+    if how == "window":                    # a window of a larger (NaN-filled) array, as when one big matrix holds several systems
+        big = numpy.full((N + 5, N + 8), numpy.nan, dtype=C.dtype)
+        big[2:2 + N, 3:3 + N] = C
+        return big[2:2 + N, 3:3 + N]
+    return C
+
+
+def n_forms(rng, n):
+    """the integer n as the integer types a caller's code produces (mask.sum() of bool / unsigned masks gives unsigned scalars)"""
+    forms = [int(n), numpy.int64(n), numpy.int32(n), numpy.uint64(n), numpy.intp(n), numpy.uint32(n), numpy.array(n)]
+    if 2 * n <= 255:
+        forms += [numpy.uint8(n), numpy.int16(n)]
+    return rng.choice(forms)
+
+
+def rcond_forms(rng, rcond):
+    """(value, object handed over): Python float, NumPy float64 / float32 scalar (value rounded to single first), 0-d array"""
+    how = rng.choice(["float", "float", "np64", "np32", "0d"])
+    if how == "np32":
+        rcond = float(numpy.float32(rcond))
+        return rcond, numpy.float32(rcond)
+    return rcond, {"float": float(rcond), "np64": numpy.float64(rcond), "0d": numpy.array(float(rcond))}[how]
+
+
+def call_function(rng, C, n, rc=None):
+    """create_tomographic_covariance_reconstructor through one of its names, positionally or by keyword; rc None = default"""
+    import aotools
+    S = sc()
+    f = rng.choice([S.create_tomographic_covariance_reconstructor, S.create_tomographic_covariance_reconstructor,
+                    aotools.create_tomographic_covariance_reconstructor, aotools.turbulence.create_tomographic_covariance_reconstructor])
+    if rng.random() < 0.3:
+        kw = {"covariance_matrix": C, "n_onaxis_subaps": n}
+        if rc is not None:
+            kw["svd_conditioning"] = rc
+        return f(**kw)
+    if rc is None:
+        return f(C, n)
+    return f(C, n, svd_conditioning=rc) if rng.random() < 0.3 else f(C, n, rc)
+
+
+def reference(C, n, rcond):
+    """what the property's reconstructor is for THESE arguments, from numpy's pinv directly (independent of anything the library
+    may remember from earlier calls)"""
+    n = int(n)
+    C = numpy.array(C, copy=True)
+    return C[:2 * n, 2 * n:].dot(numpy.linalg.pinv(C[2 * n:, 2 * n:], rcond=float(rcond)))
 
 
 def retained_projector(A, rcond):
@@ -365,19 +464,35 @@ def oracle_handmade(chk, quick):
     ncase = 1500 if quick else 120000
     for it in range(ncase):
         N = rng.randint(3, 20 if quick else 64)
+        # round 5: sizes past any blocking / size threshold of the linear-algebra kernels (quick: 3 matrices of 130..300; thorough: 60 up to 600)
+        big = it % 500 == 250 if quick else it % 2000 == 1000
+        if big:
+            N = rng.randint(130, 300 if quick else 600)
         n = rng.randint(1, (N - 1) // 2)
         p, q = 2 * n, N - 2 * n
         dt = rng.choice([numpy.float64, numpy.float64, numpy.float32])
-        kind = rng.choice(["full", "full", "gap", "rankdef"]) if q > 1 else "full"
+        kind = rng.choice(["full", "full", "gap", "rankdef", "tightgap", "tightgap", "illcond"]) if q > 1 else "full"
+        if kind == "illcond" and dt != numpy.float64:
+            kind = "tightgap"
         tol = TOL64 if dt == numpy.float64 else TOL32
         dn = numpy.dtype(dt).name
         C, W, rcond, scale = handmade(nprng, rng, N, n, kind, dt)
+        if kind == "illcond":
+            tol = TOL64 * LAST["cond"] / 1e3
+        lay = rng.choice(LAYOUTS)
+        C = relayout(C, lay)
         C0 = C.copy()
-        default = kind == "full" and rng.random() < 0.5
-        nn = rng.choice([n, numpy.int64(n)])
-        rep = {"N": N, "n": n, "kind": kind, "dtype": dn, "rcond": rcond, "C": C0.astype(float).tolist()}
+        default = kind in ("full", "illcond") and rng.random() < 0.5
+        nn = n_forms(rng, n)
+        rcond, rc_arg = rcond_forms(rng, rcond)
+        rep = {"N": N, "n": n, "kind": kind, "dtype": dn, "rcond": rcond, "layout": lay, "n_type": type(nn).__name__,
+               "rcond_type": type(rc_arg).__name__, "C": C0.astype(float).tolist() if N <= 64 else "<%dx%d matrix: re-run with this seed>" % (N, N)}
+        chk.count("oracle:handmade:layout:%s" % lay)
+        chk.count("oracle:handmade:n:%s" % type(nn).__name__)
+        if big:
+            chk.count("oracle:handmade:big")
         try:
-            R = S.create_tomographic_covariance_reconstructor(C, nn) if default else S.create_tomographic_covariance_reconstructor(C, nn, rcond)
+            R = call_function(rng, C, nn) if default else call_function(rng, C, nn, rc_arg)
         except Exception as ex:          # the property's domain is every PSD matrix and partition: construction must succeed
             chk.oracle_cases += 1
             chk.fail("raises:%s" % kind, "create_tomographic_covariance_reconstructor raised %s: %s (N=%d n=%d %s rcond=%r)"
@@ -398,7 +513,8 @@ def oracle_handmade(chk, quick):
         Cf, Rf = C.astype(float), R.astype(float)
         Conoff, A = Cf[:p, p:], Cf[p:, p:]
         sc_on = float(numpy.abs(Conoff).max()) * q + 1e-300
-        if kind == "full":
+        label = {"full": "full", "illcond": "full-illcond"}.get(kind, "retained")
+        if kind in ("full", "illcond"):
             Pi = numpy.eye(q)
         else:
             Pi, cut, below, above, smax = retained_projector(A, rcond)
@@ -408,13 +524,14 @@ def oracle_handmade(chk, quick):
         # --- normal equations (on the retained subspace)
         res = float(numpy.abs(Rf @ A - Conoff @ Pi).max())
         if not within(chk, "normal-eq:%s:%s" % (kind, dn), res, tol * sc_on):
-            chk.fail("normal-eq:%s:%s" % ("full" if kind == "full" else "retained", dn),
-                     "R*C_offoff != C_onoff%s: max residual %.3g > %.3g (N=%d n=%d %s rcond=%r%s)"
-                     % ("" if kind == "full" else "*Pi", res, tol * sc_on, N, n, dn, rcond, " default" if default else ""), rep)
+            chk.fail("normal-eq:%s:%s" % (label, dn),
+                     "R*C_offoff != C_onoff%s: max residual %.3g > %.3g (N=%d n=%d %s rcond=%r%s%s)"
+                     % ("" if label != "retained" else "*Pi", res, tol * sc_on, N, n, dn, rcond, " default" if default else "",
+                        " cond=%.3g" % LAST["cond"] if kind in ("illcond", "tightgap") else ""), rep)
         # --- R lives on the retained subspace
         sc_R = float(numpy.abs(Rf).max()) * q + 1e-300
         off = float(numpy.abs(Rf @ (numpy.eye(q) - Pi)).max())
-        if kind != "full" and not within(chk, "retained-support:%s:%s" % (kind, dn), off, tol * sc_R):
+        if label == "retained" and not within(chk, "retained-support:%s:%s" % (kind, dn), off, tol * sc_R):
             chk.fail("retained-support:%s" % dn, "R has weight %.3g outside the retained singular subspace (singular values below "
                      "rcond*max were not discarded; N=%d n=%d rcond=%r)" % (off, N, n, rcond), rep)
         # --- residual variance against competitors
@@ -433,11 +550,17 @@ def oracle_handmade(chk, quick):
             comps.append(("gradient step", Rf - ts * G, ts * numpy.linalg.norm(G)))
         comps.append(("known solution W*Pi", W @ Pi, numpy.linalg.norm(W @ Pi - Rf)))
         comps.append(("zero map", numpy.zeros((p, q)), numpy.linalg.norm(Rf)))
+        # round 5, "tightgap" only: the discarded singular values are NOT negligible there (a tenth of the cut-off), so the part of R
+        # that leaks out of the retained subspace (bounded by the retained-support test above) changes J at first order:
+        # J(R) - J(R') <= 2|G||R'-R| + 2<C_onoff(1-Pi), R(1-Pi)> for every competitor with R'Pi = R' (all of the ones below) — an
+        # exact bound (Cauchy-Schwarz), not a fitted tolerance; observed (J(R)-J(R'))/(slack) <= 0.15 without it, 12 seeds
+        # (10x the bound is allowed: observed <= 0.06 of the slack then, 12 seeds; the clause is carried by normal-eq / retained-support for this kind)
+        leak = 20 * numpy.linalg.norm(Conoff @ (numpy.eye(q) - Pi)) * numpy.linalg.norm(Rf @ (numpy.eye(q) - Pi)) if kind == "tightgap" else 0.0
         for name, Rp, dist in comps:
             Jp = Jfun(Cf, p, Rp)
-            slack = 2 * dist * gnoise + 1e-9 * trcon
+            slack = 2 * dist * gnoise + 1e-9 * trcon + leak
             if not within(chk, "optimal:%s:%s" % (kind, dn), max(JR - Jp, 0.0), slack):
-                chk.fail("optimal:%s:%s" % ("full" if kind == "full" else "retained", dn),
+                chk.fail("optimal:%s:%s" % (label, dn),
                          "competitor (%s) has a SMALLER expected squared residual: J(R')=%.12g < J(R)=%.12g (N=%d n=%d %s rcond=%r)"
                          % (name, Jp, JR, N, n, dn, rcond), dict(rep, competitor=name))
                 break
@@ -451,6 +574,105 @@ def oracle_handmade(chk, quick):
                     chk.fail("optimal:excess-identity", "J(R+tE)-J(R)=%.12g differs from t^2 tr(E C_offoff E^T)=%.12g (N=%d n=%d t=%g)"
                              % (lhs, rhs, N, n, t), rep)
                     break
+    # --- round 5: conditioning values at and beyond 1 (every singular value is below the cut-off: the retained subspace is {0}, R = 0),
+    # integer-typed PSD matrices, and HISTORIES of calls on the same / same-shaped matrices
+    for it in range(24 if quick else 600):
+        N = rng.randint(3, 16)
+        n = rng.randint(1, (N - 1) // 2)
+        p, q = 2 * n, N - 2 * n
+        dt = rng.choice([numpy.float64, numpy.float32])
+        dn = numpy.dtype(dt).name
+        C, W, _, scale = handmade(nprng, rng, N, n, "full", dt)
+        rc = rng.choice([1, 1.0, 1.0, 2.5, 1e6, numpy.float64(1.0), numpy.float32(1.0)])
+        rep = {"N": N, "n": n, "kind": "discard-all", "dtype": dn, "rcond": float(rc), "C": C.astype(float).tolist()}
+        chk.oracle_cases += 1
+        chk.count("oracle:handmade:discard-all:%s" % dn)
+        chk.case(("discard-all", N, n, dn, it))
+        try:
+            R = numpy.asarray(call_function(rng, C, n_forms(rng, n), rc)).astype(float)
+        except Exception as ex:
+            chk.fail("raises:discard-all", "create_tomographic_covariance_reconstructor raised %s: %s (N=%d n=%d %s rcond=%r)"
+                     % (type(ex).__name__, ex, N, n, dn, rc), rep)
+            continue
+        # observed on the clean tree: exactly 0 (numpy's test is s > rcond*max(s))
+        if R.shape != (p, q) or not numpy.abs(R).max() <= (TOL64 if dt == numpy.float64 else TOL32) * numpy.abs(W).max():
+            chk.fail("retained-support:discard-all:%s" % dn, "svd_conditioning=%r >= 1 leaves no singular value above the cut-off, the "
+                     "reconstructor must be 0 but has entries up to %.3g (N=%d n=%d)" % (rc, numpy.abs(R).max() if R.size else -1, N, n), rep)
+    for it in range(20 if quick else 500):
+        N = rng.randint(3, 14)
+        n = rng.randint(1, (N - 1) // 2)
+        p, q = 2 * n, N - 2 * n
+        for attempt in range(50):
+            G = nprng.integers(-4, 5, size=(N, N + rng.randint(2, 6)))
+            Ci = G @ G.T
+            if numpy.linalg.cond(Ci[p:, p:].astype(float)) <= 1e3:
+                break
+        else:
+            continue
+        dti = rng.choice([numpy.int64, numpy.int32, numpy.uint16, numpy.int64])
+        if dti == numpy.uint16 and Ci.min() < 0:
+            dti = numpy.int16
+        C = relayout(Ci.astype(dti), rng.choice(LAYOUTS))
+        C0 = C.copy()
+        rep = {"N": N, "n": n, "kind": "integer", "dtype": numpy.dtype(dti).name, "rcond": 0.0, "C": Ci.tolist()}
+        chk.oracle_cases += 1
+        chk.count("oracle:handmade:integer:%s" % numpy.dtype(dti).name)
+        chk.case(("integer", N, n, numpy.dtype(dti).name, it))
+        try:
+            R = numpy.asarray(call_function(rng, C, n_forms(rng, n), rng.choice([None, 0, 0.0])))
+        except Exception as ex:
+            chk.fail("raises:integer", "create_tomographic_covariance_reconstructor raised %s: %s on an integer-typed PSD matrix "
+                     "(N=%d n=%d %s)" % (type(ex).__name__, ex, N, n, numpy.dtype(dti).name), rep)
+            continue
+        if not numpy.array_equal(C, C0):
+            chk.fail("purity:covariance-matrix-written", "covariance_matrix argument modified in place (integer matrix, N=%d n=%d)" % (N, n), rep)
+        Cf = Ci.astype(float)
+        res = float(numpy.abs(R.astype(float) @ Cf[p:, p:] - Cf[:p, p:]).max()) if R.shape == (p, q) else float("inf")
+        # observed on the clean tree over 12 seeds: <= 3e-14 of max|C_onoff|*q
+        if not within(chk, "normal-eq:integer", res, TOL64 * numpy.abs(Cf[:p, p:]).max() * q + 1e-300):
+            chk.fail("normal-eq:full:integer", "R*C_offoff != C_onoff for an integer-typed PSD matrix: residual %.3g (N=%d n=%d %s, "
+                     "R dtype %s)" % (res, N, n, numpy.dtype(dti).name, R.dtype), rep)
+    for it in range(60 if quick else 2500):
+        N = rng.randint(5, 14)
+        n1 = rng.randint(1, (N - 1) // 2)
+        n2 = rng.choice([v for v in range(1, (N - 1) // 2 + 1) if v != n1])
+        dt = rng.choice([numpy.float64, numpy.float32])
+        dn = numpy.dtype(dt).name
+        tol = TOL64 if dt == numpy.float64 else TOL32
+        kind = "tightgap" if N - 2 * n1 > 1 else "full"
+        Ca, _, rc, _ = handmade(nprng, rng, N, n1, kind, dt)
+        Cb, _, rcb, _ = handmade(nprng, rng, N, n1, kind, dt)          # another matrix of the same shape and type
+        rc = rc or 10 ** rng.uniform(-3, -1)
+        rc2 = rng.choice([rc * 30, rc / 30, 0.3])
+        lay = rng.choice(LAYOUTS)
+        Ca, Cb = relayout(Ca, lay if lay != "ro" else "C"), relayout(Cb, lay)
+        steps = [("first", Ca, n1, rc), ("other-conditioning", Ca, n1, 0), ("other-partition", Ca, n2, rc),
+                 ("other-matrix-same-shape", Cb, n1, rc), ("repeat", Ca, n1, rc), ("other-conditioning", Ca, n1, rc2),
+                 ("other-matrix-same-shape", Cb, n1, 0), ("edited-in-place", Ca, n1, rc), ("other-partition", Ca, n2, 0),
+                 ("edited-in-place", Ca, n1, 0), ("repeat", Cb, n1, rc)]
+        chk.oracle_cases += 1
+        chk.count("oracle:handmade:history:%s" % dn)
+        chk.case(("history", N, n1, n2, dn, lay, it))
+        for k, (what, M, n, r) in enumerate(steps):
+            if what == "edited-in-place":
+                # the caller adds measurement noise to the diagonal of HIS matrix between two calls (the matrix stays PSD)
+                M[numpy.arange(N), numpy.arange(N)] += (numpy.abs(numpy.diag(M)).max() * rng.uniform(0.05, 0.5)).astype(dt)
+            try:
+                R = numpy.asarray(call_function(rng, M, n_forms(rng, n), r)).astype(float)
+            except Exception as ex:
+                chk.fail("raises:history", "call %d (%s) of a sequence on one matrix raised %s: %s" % (k, what, type(ex).__name__, ex),
+                         {"N": N, "n": n, "dtype": dn, "rcond": r, "step": k})
+                break
+            ref = numpy.asarray(reference(M, n, r)).astype(float)
+            err = float(numpy.abs(R - ref).max()) if R.shape == ref.shape else float("inf")
+            # observed on the clean tree: 0 (the same LAPACK / BLAS calls on the same numbers)
+            if not within(chk, "history:function:%s" % dn, err, tol * (numpy.abs(ref).max() + 1e-300)):
+                chk.fail("history:function:%s" % what, "call %d of a sequence (%s; N=%d n=%d rcond=%r %s) is not the reconstructor of the "
+                         "arguments it was given: differs by %.3g (max |R| %.3g) — earlier calls in the sequence: %s"
+                         % (k, what, N, n, r, dn, err, numpy.abs(ref).max(), [(w, nn_, rr) for w, _, nn_, rr in steps[:k]]),
+                         {"N": N, "n": n, "dtype": dn, "rcond": r, "step": k, "C": numpy.asarray(M).astype(float).tolist(),
+                          "sequence": [(w, nn_, float(rr)) for w, _, nn_, rr in steps[:k + 1]]})
+                break
     # --- duplicate sensor, hand-made Gram matrices of sample slopes
     for it in range(150 if quick else 5000):
         k = rng.randint(1, 3)                       # off-axis sensors
@@ -530,19 +752,26 @@ def oracle_endtoend(chk, quick):
             [rng.uniform(500, 12000) for _ in range(nl)]
         lay_r0 = [rng.uniform(0.08, 0.4) for _ in range(nl)]
         lay_L0 = [rng.uniform(8, 60) for _ in range(nl)]
+        diams = None
         if general:
             # arbitrary (non-symmetric) masks with DIFFERENT sub-aperture counts, sensors looking in different directions
             # and at different guide-star altitudes; only the duplicated pair shares direction, mask, wavelength
-            m = rng.randint(2, 3)
+            # round 5: 1..4 off-axis sensors (1 = only the duplicate), and in some cases every sensor on its OWN grid (nx_k x nx_k
+            # sub-apertures of D/nx_k) — the masks are then a list of differently shaped arrays
+            m = rng.choice([1, 2, 2, 3, 3, 4])
+            mixed = rng.random() < 0.35
+            nxs = [rng.randint(2, 6) if mixed else nx for _ in range(m)]
             masks = []
-            for _ in range(m):
+            for k in range(m):
                 while True:
-                    mk = (nprng.random((nx, nx)) < rng.choice([0.35, 0.6, 0.9])).astype(int)
+                    mk = (nprng.random((nxs[k], nxs[k])) < rng.choice([0.35, 0.6, 0.9])).astype(int)
                     if mk.sum() >= 2:
                         break
                 masks.append(mk)
             dup = rng.randrange(m)
-            allm = numpy.array([masks[dup]] + masks)
+            allm = numpy.array([masks[dup]] + masks) if not mixed else [masks[dup]] + masks
+            if mixed:
+                diams = [D / nxs[dup]] + [D / v for v in nxs]
             nw = m + 1
             gss = [(rng.uniform(-40, 40), rng.uniform(-40, 40)) for _ in range(nw)]
             alts = [rng.choice([0.0, 90e3, 20e3]) for _ in range(nw)]
@@ -573,10 +802,28 @@ def oracle_endtoend(chk, quick):
             lams[1 + dup] = lam_dup
             gs_arr, alt_arr = numpy.array([gs] * nw), numpy.full(nw, alt)
         chk.count("oracle:endtoend:%s" % ("general-geometry" if general else "symmetric-colocated"))
-        cfg = {"nx": nx, "masks": [mk.tolist() for mk in allm], "dup": dup, "D": D, "gs": gs_arr.tolist(), "gs_alt": alt_arr.tolist(),
-               "wavelengths": lams, "layer_alt": lay_alt, "layer_r0": lay_r0, "layer_L0": lay_L0}
-        obj = S.CovarianceMatrix(nw, allm, D, numpy.full(nw, d), alt_arr, gs_arr, numpy.array(lams),
-                                 nl, numpy.array(lay_alt), numpy.array(lay_r0), numpy.array(lay_L0), threads=1)
+        if nl >= 2 and rng.random() < 0.2:
+            lay_alt[1], lay_L0[1] = lay_alt[0], lay_L0[0]          # round 5: two sheets of turbulence in one altitude bin (r0 differs)
+        diams = [d] * nw if diams is None else diams
+        # round 5: the arguments as float64 arrays (as before), plain lists or tuples of Python floats; the class through the package name;
+        # a few systems built by the multiprocessing builder
+        form = rng.choice(["array", "array", "list", "tuple"])
+        conv = {"array": lambda x: numpy.array(x, dtype=float), "list": lambda x: numpy.array(x, dtype=float).tolist(),
+                "tuple": lambda x: tuple(map(tuple, numpy.array(x, dtype=float).tolist())) if numpy.ndim(x) == 2
+                else tuple(numpy.array(x, dtype=float).tolist())}[form]
+        thr_main = 2 if it in (5, 6) else 1
+        import aotools
+        ctor = rng.choice([S.CovarianceMatrix, aotools.CovarianceMatrix])
+        chk.count("oracle:endtoend:args:%s" % form)
+        chk.count("oracle:endtoend:off-axis-sensors:%d" % m)
+        if any(v != diams[0] for v in diams):
+            chk.count("oracle:endtoend:mixed-grids")
+        cfg = {"nx": nx, "masks": [numpy.asarray(mk).tolist() for mk in allm], "dup": dup, "D": D, "gs": gs_arr.tolist(), "gs_alt": alt_arr.tolist(),
+               "wavelengths": lams, "layer_alt": lay_alt, "layer_r0": lay_r0, "layer_L0": lay_L0, "diam": diams, "args": form,
+               "threads": thr_main}
+        mk_obj = lambda L_alt, L_r0, L_L0, threads=1: ctor(nw, allm, D, conv(diams), conv(alt_arr), conv(gs_arr), conv(lams),
+                                                             len(L_alt), conv(L_alt), conv(L_r0), conv(L_L0), threads=threads)
+        obj = mk_obj(lay_alt, lay_r0, lay_L0, thr_main)
         C = obj.make_covariance_matrix()
         n = int(obj.n_subaps[0])
         p = 2 * n
@@ -654,8 +901,7 @@ def oracle_endtoend(chk, quick):
         if nl >= 2 and condA <= 2e3 and not not_psd:
             Ct = numpy.zeros_like(Cf)
             for li in range(nl):
-                o1 = S.CovarianceMatrix(nw, allm.copy(), D, numpy.full(nw, d), alt_arr.copy(), gs_arr.copy(), numpy.array(lams), 1,
-                                        numpy.array(lay_alt[li:li + 1]), numpy.array(lay_r0[li:li + 1]), numpy.array(lay_L0[li:li + 1]), threads=1)
+                o1 = mk_obj(lay_alt[li:li + 1], lay_r0[li:li + 1], lay_L0[li:li + 1])
                 Ct += numpy.asarray(o1.make_covariance_matrix()).astype(float)
             At, Ct_onoff = Ct[p:, p:], Ct[:p, p:]
             res = float(numpy.abs(R0 @ At - Ct_onoff).max())
@@ -668,26 +914,58 @@ def oracle_endtoend(chk, quick):
         # to the matrix the object holds now (serial builder every time; the multiprocessing builder in a few cases per run)
         if it % 4 == 1 or it < 3:
             thr = 2 if it < 3 else 1
-            obj2 = obj if thr == 1 else S.CovarianceMatrix(nw, allm, D, numpy.full(nw, d), alt_arr, gs_arr, numpy.array(lams), nl,
-                                                           numpy.array(lay_alt), numpy.array(lay_r0), numpy.array(lay_L0), threads=thr)
+            obj2 = obj if thr == 1 else mk_obj(lay_alt, lay_r0, lay_L0, thr)
             if thr != 1:
                 obj2.make_covariance_matrix()
                 obj2.make_tomographic_reconstructor()
-            obj2.gs_positions = numpy.asarray(gs_arr, dtype=float) + numpy.array([[rng.uniform(5, 25), rng.uniform(-25, -5)]] * nw) * \
-                numpy.arange(1, nw + 1)[:, None]
+            # round 5: not only the asterism — the seeing, the outer scales, the layer heights (attributes a loop over conditions changes)
+            changed = "gs_positions" if it < 3 or it % 8 == 1 else rng.choice(["layer_r0s", "layer_L0s", "layer_altitudes"])
+            if changed == "gs_positions":
+                obj2.gs_positions = numpy.asarray(gs_arr, dtype=float) + numpy.array([[rng.uniform(5, 25), rng.uniform(-25, -5)]] * nw) * \
+                    numpy.arange(1, nw + 1)[:, None]
+            elif changed == "layer_altitudes":
+                obj2.layer_altitudes = conv([0.5 * a + 250. for a in lay_alt])
+            else:
+                setattr(obj2, changed, conv([v * rng.choice([0.5, 1.7, 3.0]) for v in (lay_r0 if changed == "layer_r0s" else lay_L0)]))
             Cn = numpy.array(obj2.make_covariance_matrix(), copy=True)
             Rn = numpy.asarray(obj2.make_tomographic_reconstructor()).astype(float)
             Rw = numpy.asarray(S.create_tomographic_covariance_reconstructor(Cn, obj2.n_subaps[0], 0)).astype(float)
-            chk.count("oracle:endtoend:rebuild:threads=%d" % thr)
-            if Rn.shape != Rw.shape or not numpy.array_equal(Rn, Rw):
-                chk.fail("state:stale-after-rebuild", "after gs_positions was changed and make_covariance_matrix() re-run (threads=%d), "
+            Rr = numpy.asarray(reference(Cn, obj2.n_subaps[0], 0)).astype(float)
+            chk.count("oracle:endtoend:rebuild:threads=%d:%s" % (thr, changed))
+            if Rn.shape != Rw.shape or not numpy.array_equal(Rn, Rw) or not within(
+                    chk, "history:method:rebuild", float(numpy.abs(Rn - Rr).max()), TOL32 * (numpy.abs(Rr).max() + 1e-300)):
+                chk.fail("state:stale-after-rebuild", "after %s was changed and make_covariance_matrix() re-run (threads=%d), "
                          "make_tomographic_reconstructor() is not the reconstructor of the matrix the object holds now: max difference %.3g"
-                         % (thr, float(numpy.abs(Rn - Rw).max()) if Rn.shape == Rw.shape else float("nan")),
-                         dict(cfg, threads=thr, new_gs=numpy.asarray(obj2.gs_positions).tolist()))
+                         % (changed, thr, float(numpy.abs(Rn - Rr).max()) if Rn.shape == Rr.shape else float("nan")),
+                         dict(cfg, threads=thr, changed=changed, new_value=numpy.asarray(getattr(obj2, changed)).tolist()))
         # function and method agree
         Rf = numpy.asarray(S.create_tomographic_covariance_reconstructor(C, obj.n_subaps[0], 0)).astype(float)
         if not numpy.array_equal(Rf, R0):
             chk.fail("wrapper:method-vs-function", "method result differs from create_tomographic_covariance_reconstructor(C, n_subaps[0], 0)", cfg)
+        # (v) round 5: ONE object asked again and again with other conditioning values (more calls than any one-slot memory is long),
+        # then after the caller added measurement noise to the diagonal of the matrix the object holds (in place): each answer must be
+        # the reconstructor of the matrix held NOW for the conditioning asked NOW (numpy's pinv directly; observed difference 0)
+        if it % 2 == 0:
+            Ch = obj.covariance_matrix
+            seq = [0, 0.05, 0.3, 0.05, 0, 1e-3, 0.3, 0]
+            noise_at = rng.randrange(2, len(seq) - 1)
+            for k, r in enumerate(seq):
+                if k == noise_at:
+                    Ch[numpy.arange(N), numpy.arange(N)] += numpy.float32(numpy.abs(numpy.diag(Ch)).max() * rng.uniform(0.05, 0.5))
+                how = rng.randrange(3)
+                Rk = numpy.asarray(obj.make_tomographic_reconstructor(r) if how == 0 else obj.make_tomographic_reconstructor(svd_conditioning=r)
+                                   if how == 1 else (obj.make_tomographic_reconstructor() if r == 0 else obj.make_tomographic_reconstructor(float(r)))
+                                   ).astype(float)
+                Rr = numpy.asarray(reference(Ch, n, r)).astype(float)
+                err = float(numpy.abs(Rk - Rr).max()) if Rk.shape == Rr.shape else float("inf")
+                if not within(chk, "history:method:sequence", err, TOL32 * (numpy.abs(Rr).max() + 1e-300)):
+                    chk.fail("history:method:%s" % ("matrix-edited-in-place" if k >= noise_at else "conditioning-sequence"),
+                             "call %d of make_tomographic_reconstructor on one object (svd_conditioning %r after %r%s) is not the reconstructor "
+                             "of the matrix the object holds: differs by %.3g (max |R| %.3g)"
+                             % (k, r, seq[:k], ", noise added to the diagonal in place before call %d" % noise_at if k >= noise_at else "",
+                                err, numpy.abs(Rr).max()), dict(cfg, sequence=seq[:k + 1], noise_before_call=noise_at))
+                    break
+            chk.count("oracle:endtoend:method-history")
 
 
 def run(chk):
@@ -697,8 +975,15 @@ def run(chk):
                 "for the recorded-kernel product and numpy pinv vs pinvFromSvd(numpy svd); contract fields checked per call. Oracle: "
                 "normal equations full/retained, retained support, J against competitors, excess identity, duplicate sensor; relative "
                 "tolerance 1e-9 (float64, cond<=1e3) / 2e-3 (float32, cond<=30; end-to-end 1e-2 with cond<=2e3); hand-made duplicate "
-                "sensor |R-E_k| <= 1e-7*q (float64) / 1e-4*q (float32). distinct = distinct "
-                "(size, partition, kind, dtype, instance)")
+                "sensor |R-E_k| <= 1e-7*q (float64) / 1e-4*q (float32). Round 5: cut-off a factor 10 from both neighbouring singular "
+                "values (tightgap), cond 1e3..1e6 with zero conditioning (float64, tolerance x cond/1e3), conditioning >= 1 (R = 0), "
+                "integer-typed PSD matrices, sizes 130..300 (thorough ..600); the matrix C / Fortran / strided / negative-stride / "
+                "read-only / window of a larger array, n as Python / NumPy signed and unsigned integers / 0-d array, the conditioning "
+                "as Python / NumPy float64 / float32 scalar / 0-d array, by keyword or position, through the module and the package names; "
+                "call sequences on one matrix / one object (other conditioning, other partition, another matrix of the same shape, "
+                "the caller's in-place edit of the diagonal, rebuild after changed seeing / outer scale / layer heights): every answer "
+                "compared with numpy's pinv applied directly to the arguments of THAT call (1e-9 / 2e-3 relative; observed 0). "
+                "distinct = distinct (size, partition, kind, dtype, instance)")
     chk.assumptions = [
         "numpy.linalg.pinv/svd meet the SVD-truncation contract NumpyPinv (orthogonal factors, s>=0, A=U diag(s) Vt, "
         "P=pinvFromSvd): assumed in every theorem, checked numerically on each generated call, not proved",
@@ -710,8 +995,13 @@ def run(chk):
         "singular PSD C only R*C_offoff = E*C_offoff is proved (`duplicate_psd`) — pinv then returns the minimum-norm solution, which "
         "need not be the selection matrix; the oracle's duplicate cases have cond(C_offoff) <= 1e3 (float64) / 30 (float32) / 2e3 "
         "(end-to-end), exactly singular matrices with rcond = 0 are not evaluated (nothing holds 'to rounding' there)",
-        "end-to-end cases: co-located point-symmetric and general geometries, equal sub-aperture diameters (C01 covers the builder itself); builder "
+        "end-to-end cases: co-located point-symmetric and general geometries (round 5: 1..4 off-axis sensors, in a third of the general cases "
+        "every sensor on its own grid and sub-aperture size, arguments as arrays / lists / tuples, two layers in one altitude bin, a few "
+        "systems built by the multiprocessing builder); C01 covers the builder itself; builder "
         "outputs that are not symmetric PSD are skipped and counted, not judged",
+        "tightgap competitor test: J(R) - J(R') <= 2|G||R'-R| + 2|C_onoff(1-Pi)||R(1-Pi)| is exact for competitors on the retained subspace; "
+        "10x the second term is allowed (observed <= 0.06 of the allowance over 12 seeds); float16 / longdouble / nested-list matrices and "
+        "float n are outside the domain (numpy's pinv / slicing reject them on the unchanged tree)",
     ]
     chk.build_and_audit("AoVerif.Props.C02", "AoVerif.Props.C02", REQUIRED)
     try:
@@ -734,7 +1024,7 @@ def replay(rec):
         print("replay: nothing concrete recorded (proof / correspondence breakage): re-run ./check C02")
         return 1
     bad = 0
-    if "C" in r and "n" in r:
+    if isinstance(r.get("C"), list) and "n" in r:
         dt = numpy.dtype(r.get("dtype", "float64"))
         C = numpy.array(r["C"], dtype=float).astype(dt)
         n = int(r["n"])
@@ -770,10 +1060,10 @@ def replay(rec):
             print("replay: J(R) = %.12g, J(R - t*grad) = %.12g" % (Jfun(Cf, p, R), Jfun(Cf, p, R - ts * G)))
         return bad
     if "masks" in r:
-        masks = numpy.array(r["masks"])
+        masks = [numpy.array(mk) for mk in r["masks"]]
         nw = len(masks)
         nx = r["nx"]
-        obj = S.CovarianceMatrix(nw, masks, r["D"], numpy.full(nw, r["D"] / nx), numpy.array(r["gs_alt"], dtype=float) if isinstance(r["gs_alt"], list) else numpy.full(nw, r["gs_alt"]),
+        obj = S.CovarianceMatrix(nw, masks, r["D"], numpy.array(r["diam"]) if "diam" in r else numpy.full(nw, r["D"] / nx), numpy.array(r["gs_alt"], dtype=float) if isinstance(r["gs_alt"], list) else numpy.full(nw, r["gs_alt"]),
                                  numpy.array(r["gs"], dtype=float) if isinstance(r["gs"][0], (list, tuple)) else numpy.array([r["gs"]] * nw), numpy.array(r["wavelengths"]), len(r["layer_alt"]),
                                  numpy.array(r["layer_alt"]), numpy.array(r["layer_r0"]), numpy.array(r["layer_L0"]), threads=1)
         C = obj.make_covariance_matrix()
